@@ -8,12 +8,12 @@ observations are compared with the model:
   * `migrate status --format '{{ json . }}'` (Pending, OutOfOrder, Applied, Current, Next, Status, Count/Total)
     against `pending(dir, observed history, linear)`.
 `migrate apply [n] --exec-order … [--baseline v] [--allow-dirty] --tx-mode none|file` must end in the model's
-result class (ok / nothing pending / non-linear / missing migration / not clean / baseline not found /
-statement failure) and execute exactly the model's first n pending files.
+COARSE outcome — done / nothing to do / refused before anything ran / failed while executing — decided from the
+exit status, the journal and the revision table (never from the wording of a message: where the model says the
+input can only be refused, any refusal is accepted), and execute exactly the model's first n pending files.
 """
 import json
 import os
-import re
 import sqlite3
 import sys
 
@@ -26,26 +26,38 @@ class Stop(Exception):
     pass
 
 
-def classify(rc, so, se):
-    if "panic:" in se or "goroutine " in se:
-        return "panic"
-    if rc == 124:
-        return "watchdog"
+def msg_class(rc, so, se):
+    """Fine class read from the MESSAGE TEXT. Evidence only (`msg-class:*` counters, traces): the wording of an
+    error is not part of C11 and never enters a verdict or a violation key."""
     if rc == 0:
         return "nopending" if "No migration files to execute" in so else "ok"
     if "added out of order" in se:
         return "nonlinear"
     if "missing migration" in se:
         return "missing"
-    if "baseline version or allow-dirty is required" in se:
+    if "allow-dirty is required" in se:
         return "notclean"
-    if re.search(r'baseline version "[^"]*" not found', se):
+    if "baseline version" in se:
         return "nobaseline"
     if "executing statement" in se:
         return "stmtfail"
-    if re.search(r'migration with version "[^"]*" not found', se):
+    if "not found" in se:
         return "notfound"
     return "other"
+
+
+def crashed(rc, se):
+    """a Go runtime trace (not an error message of atlas) or the exit status of an unrecovered panic"""
+    return "goroutine " in se and ("panic:" in se or "fatal error:" in se)
+
+
+def outcome(rc, executed, history_changed):
+    """COARSE outcome of a run, decided from the exit status, the journal and the revision table only:
+    done (rc 0, statements ran) / nothing (rc 0, nothing ran) / refused (rc != 0, no statement executed and the
+    revision table untouched) / failed (rc != 0 after at least one statement or with a changed revision table)."""
+    if rc == 0:
+        return "done" if executed else "nothing"
+    return "failed" if (executed or history_changed) else "refused"
 
 
 class Runner:
@@ -60,6 +72,7 @@ class Runner:
         self.trace = []
         self.done_ops = []
         self.stopped = None
+        self.last_revs = []   # revision table as observed after the previous operation
 
     # ---- plumbing ----
     def atlas(self, *a):
@@ -118,22 +131,24 @@ class Runner:
             self.viol("journal|%s|differ" % opname, "statements executed (journal) after `%s` differ from the model: observed %r, model %r" % (opname, j, self.w.journal))
         if jex != self.w.j_exists:
             self.viol("journal|%s|table" % opname, "journal table existence %r, model %r" % (jex, self.w.j_exists))
+        self.last_revs = revs
         return revs
 
     def check_status(self, revs):
         w, ctx = self.w, self.ctx
         rc, so, se = self.atlas("migrate", "status", *self.U, "--format", "{{ json . }}")
-        cls = classify(rc, so, se)
-        if cls == "watchdog":
+        if rc == 124:
             self.inconcl("watchdog")
-        if cls == "panic":
+        if crashed(rc, se):
             self.viol("status|panic", "`migrate status` panics: " + se.strip()[:300], {"stderr": se[:3000]})
+        if rc != 0:
+            ctx.count("msg-class:status:" + msg_class(rc, so, se))
         m = L.pending(w.file_list(), w.rev_list(), "linear", None, False, w.dirty())
         ctx.count("status-model:" + m["kind"])
         gate_open = False
         if m["kind"] == "notclean":
             # status has no --allow-dirty/--baseline: either it reports the gate, or it lists what a run that passes the gate would do
-            if cls == "notclean":
+            if rc != 0:  # refused (whatever the wording): the gate is the only refusal the model allows here
                 ctx.count("status:first-run-gate-reported")
                 return {"kind": "notclean"}
             m = L.pending(w.file_list(), w.rev_list(), "linear", None, True, w.dirty())
@@ -143,15 +158,15 @@ class Runner:
         if m["kind"] == "nopending" and last and L.World.is_partial(w.revs[last]) and last not in w.files:
             # corner of the model (appendix A says "missing migration"; with no migration file left in the directory
             # there is also nothing to run): status may report either
-            if rc != 0 and "not found" in se:
+            if rc != 0:
                 ctx.count("status:partial-file-missing-in-empty-directory")
                 return {"kind": "missing-empty-dir"}
         if m["kind"] == "missing":
-            if cls != "missing" and not (rc != 0 and "not found" in se):
-                self.viol("status|class|model=missing|real=" + cls, "model: partially applied revision without its file (missing migration); `migrate status` rc=%d: %s" % (rc, (se or so).strip()[:300]))
+            if rc == 0:
+                self.viol("status|outcome|model=missing|real=reported", "model: partially applied revision without its file (missing migration); `migrate status` rc=%d: %s" % (rc, (se or so).strip()[:300]))
             return {"kind": "missing"}
         if rc != 0:
-            self.viol("status|class|model=%s|real=%s" % (m["kind"], cls), "`migrate status` fails (rc=%d: %s) where the model says %s" % (rc, se.strip()[:300], m))
+            self.viol("status|outcome|model=%s|real=refused" % m["kind"], "`migrate status` fails (rc=%d: %s) where the model says %s" % (rc, se.strip()[:300], m))
         try:
             st = json.loads(so)
         except ValueError:
@@ -235,20 +250,22 @@ class Runner:
     def op_set(self, op):
         w, ctx, v = self.w, self.ctx, op["ver"]
         rc, so, se = self.atlas("migrate", "set", v, *self.U)
-        cls = classify(rc, so, se)
-        self.trace[-1].update(rc=rc, cls=cls, stderr=se.strip()[:300])
-        if cls == "watchdog":
+        self.trace[-1].update(rc=rc, msg=msg_class(rc, so, se), stderr=se.strip()[:300])
+        if rc == 124:
             self.inconcl("watchdog")
-        if cls == "panic":
+        if crashed(rc, se):
             self.viol("set|panic", "`migrate set` panics: " + se.strip()[:300], {"stderr": se[:3000]})
+        if rc != 0:
+            ctx.count("msg-class:set:" + msg_class(rc, so, se))
         if v not in w.files:
+            # the only possible answer is a refusal (any wording); that the table is untouched is checked by check_state
             ctx.count("op:set-unknown-version")
-            if cls != "notfound":
-                self.viol("set|class|model=notfound|real=" + cls, "`migrate set %s` for a version that is not in the directory: rc=%d %s" % (v, rc, se.strip()[:300]))
+            if rc == 0:
+                self.viol("set|outcome|model=refused|real=done", "`migrate set %s` for a version that is not in the directory succeeds: %s" % (v, so.strip()[:300]))
             return
         ctx.count("op:set")
         if rc != 0:
-            self.viol("set|class|model=ok|real=" + cls, "`migrate set %s` fails: rc=%d %s" % (v, rc, se.strip()[:300]))
+            self.viol("set|outcome|model=done|real=refused", "`migrate set %s` fails: rc=%d %s" % (v, rc, se.strip()[:300]))
         before = w.rev_rows()
         if w.revs and v > max(w.revs) and any(f < max(w.revs) and f not in w.revs for f in w.files):
             ctx.count("op:set-forward-with-unrecorded-older-file")
@@ -270,15 +287,16 @@ class Runner:
             self.viol("set|pending-after-set", "after `migrate set %s` the documented decision is pending=%r, want every migration file > %s: %r" % (v, m["pending"], v, want), {"before": before, "observed_revisions": revs})
 
     def op_crash(self, op):
-        """`migrate apply --tx-mode none` killed (SIGKILL from the verif hook) right after the revision write
-        that follows the j-th statement of the first pending file: the state a crash leaves — a partial
+        """`migrate apply --tx-mode none` killed (SIGKILL from the verif hook) right before statement j+1 of
+        the first pending file starts, i.e. after the j-th statement and its bookkeeping (how many revision
+        writes the executor makes, and when, is not assumed): the state a crash leaves — a partial
         revision WITHOUT an error text. Later operations (status, apply, set) must treat it like any partial."""
         w, ctx = self.w, self.ctx
         if w.crash_target() is None:
             return
         v, done = w.crash(op["j"])
         args = ["migrate", "apply"] + self.U + ["--tx-mode", "none", "--allow-dirty"]
-        rc, so, se = self.ctx.atlas_run(args, self.d, env={"VERIF_CRASH_AT": "rev.after:%d" % (1 + op["j"])})
+        rc, so, se = self.ctx.atlas_run(args, self.d, env={"VERIF_CRASH_AT": "stmt.before:%d" % (1 + op["j"])})
         self.trace[-1].update(rc=rc, killed_after=op["j"], file=v)
         for fn in os.listdir(os.path.join(self.d, "tmp")):
             if fn.endswith(".lock"):
@@ -298,12 +316,19 @@ class Runner:
         if op["n"]:
             args += [str(op["n"])]
         jb = list(w.journal)
+        rb = w.rev_rows()
+        robs = self.last_revs
         first = not w.revs
         lin = L.pending(w.file_list(), w.rev_list(), "linear", None, True, False)
         exp = w.apply(op["n"], op["order"], op["baseline"], op["allow"], op["tx"])
         rc, so, se = self.atlas(*args)
-        cls = classify(rc, so, se)
-        self.trace[-1].update(rc=rc, cls=cls, model=exp, stderr=se.strip()[:300])
+        revs, j, _ = self.observe()
+        proj = lambda rows: [(r["version"], r["type"], r["applied"], r["total"], bool(r["error"])) for r in rows]  # noqa: E731
+        real = outcome(rc, j != jb, proj(revs) != proj(robs))
+        want = outcome(0 if exp["class"] in ("ok", "nopending") else 1, w.journal != jb, w.rev_rows() != rb)
+        self.trace[-1].update(rc=rc, outcome=real, msg=msg_class(rc, so, se), model=exp, stderr=se.strip()[:300])
+        ctx.count("msg-class:apply:" + msg_class(rc, so, se))
+        ctx.count("apply-outcome:" + real)
         ctx.count("op:apply")
         ctx.count("apply-model:" + exp["class"])
         ctx.count("apply-order:" + op["order"])
@@ -317,15 +342,14 @@ class Runner:
             ctx.count("apply-leaves-partial")
         if op["n"] and len(exp["pending"]) > op["n"]:
             ctx.count("apply-n-truncates")
-        if cls == "watchdog":
+        if rc == 124:
             self.inconcl("watchdog")
-        if cls == "panic":
+        if crashed(rc, se):
             self.viol("apply|panic", "`migrate apply` panics: " + se.strip()[:300], {"stderr": se[:3000]})
-        if cls != exp["class"]:
-            self.viol("apply|class|model=%s|real=%s" % (exp["class"], cls), "`migrate apply%s --exec-order %s%s%s` ends as %s (rc=%d: %s); documented decision: %s pending=%r out-of-order=%r" % (
+        if real != want:
+            self.viol("apply|outcome|model=%s|real=%s" % (want, real), "`migrate apply%s --exec-order %s%s%s` ends as %s (rc=%d: %s); documented decision: %s (%s) pending=%r out-of-order=%r" % (
                 " %d" % op["n"] if op["n"] else "", op["order"], " --baseline " + op["baseline"] if op["baseline"] is not None else "", " --allow-dirty" if op["allow"] else "",
-                cls, rc, (se.strip() or so.strip())[:200], exp["class"], exp["pending"], exp["ooo"]))
-        revs, j, _ = self.observe()
+                real, rc, (se.strip() or so.strip())[:200], want, exp["class"], exp["pending"], exp["ooo"]), {"journal_before": jb, "journal_after": j, "observed_revisions": revs})
         if j != w.journal:
             key = "apply|executed-differs|%s" % op["order"]
             self.viol(key, "`migrate apply%s --exec-order %s` executed %r; the model's first %s pending files %r execute %r" % (
@@ -388,8 +412,9 @@ def main():
                "fix + `migrate hash`, delete applied file, `migrate set v`, `migrate apply [n] --exec-order linear|linear-skip|non-linear "
                "[--baseline v|--allow-dirty] --tx-mode none|file` on clean and dirty databases; after every operation the revision table "
                "(python sqlite3), the journal of executed statements and `migrate status` JSON (Pending, OutOfOrder, Applied, Current, Next, "
-               "Status, Count/Total) must equal the reference model of DESIGN appendix A advanced alongside; apply must end in the model's "
-               "result class and execute exactly the model's first n pending files. distinct = distinct (directory, history, operation, status)" % (nseq, nops),
+               "Status, Count/Total) must equal the reference model of DESIGN appendix A advanced alongside; apply/set must end in the model's "
+               "coarse outcome (done / nothing / refused / failed, from exit status + journal + revision table, not message text) and apply must "
+               "execute exactly the model's first n pending files. distinct = distinct (directory, history, operation, status)" % (nseq, nops),
                {"sequences": nseq, "ops_per_sequence": nops})
     sys.exit(1 if ctx.violations() else 0)
 
